@@ -33,9 +33,102 @@ def linear_tables(env):
     em.expressions = ShellMutableMap(SimpleDict(list(em.expressions.items())))
 
 
+class SynMap:
+    """S2': hash-consing table keyed *syntactically*: a symbolic numeric payload is keyed by the text of its z3
+    term, so a lookup never forks.  Two symbolic constants share a node iff their terms are identical; constants
+    that merely *may* be equal are distinct nodes (weaker than real hash-consing, which would share them when
+    the values coincide).  Used where the property does not depend on node sharing (simulator, validators,
+    compilers); C16/C36/C14 use the exact association-list tables instead.  Every counterexample is replayed
+    with real dict tables."""
+
+    def __init__(self, items=()):
+        self._d = {}
+        for k, v in items:
+            self._d[self._k(k)] = (k, v)
+
+    @classmethod
+    def _k(cls, k):
+        from crosshair.tracers import NoTracing
+        from fractions import Fraction as _F
+
+        with NoTracing():
+            return cls._k0(k)
+
+    @classmethod
+    def _k0(cls, k):
+        from fractions import Fraction as _F
+
+        v = getattr(k, "var", None)
+        if v is not None and not isinstance(k, (bool, int, _F)):
+            return ("§", type(k).__name__, v.sexpr())
+        if type(k) is _F or isinstance(k, _F):
+            n, d = k._numerator, k._denominator
+            if hasattr(n, "var") or hasattr(d, "var"):
+                return ("§F", cls._k0(n), cls._k0(d))
+            return k
+        if isinstance(k, tuple):
+            return (type(k).__name__,) + tuple(cls._k0(x) for x in k)
+        return k
+
+    def get(self, k, default=None):
+        r = self._d.get(self._k(k))
+        return default if r is None else r[1]
+
+    def __getitem__(self, k):
+        return self._d[self._k(k)][1]
+
+    def __setitem__(self, k, v):
+        self._d[self._k(k)] = (k, v)
+
+    def __contains__(self, k):
+        return self._k(k) in self._d
+
+    def __len__(self):
+        return len(self._d)
+
+    def __iter__(self):
+        return iter([k for k, _ in self._d.values()])
+
+    def items(self):
+        return [(k, v) for k, v in self._d.values()]
+
+    def keys(self):
+        return [k for k, _ in self._d.values()]
+
+    def values(self):
+        return [v for _, v in self._d.values()]
+
+    def setdefault(self, k, v):
+        kk = self._k(k)
+        if kk not in self._d:
+            self._d[kk] = (k, v)
+        return self._d[kk][1]
+
+
+def syntactic_tables(env):
+    env.type_manager._ints = SynMap(list(env.type_manager._ints.items()))
+    env.type_manager._reals = SynMap(list(env.type_manager._reals.items()))
+    em = env.expression_manager
+    em.expressions = SynMap(list(em.expressions.items()))
+
+
 def s4_fraction_hash():
     Fraction.__hash__ = lambda self: 0
     APPLIED.append("S4 Fraction.__hash__ constant (valid hash; dict keys compared with ==)")
+
+
+def _safe_text(f, clsname):
+    """repr/str of unified_planning objects are only used in messages; when CrossHair's formatter calls them
+    outside tracing on an object that holds symbolic payloads, answer with a placeholder."""
+    def wrapper(self):
+        try:
+            return f(self)
+        except CrossHairInternal:
+            return f"<{clsname}>"
+    wrapper._vf_wrapped = True
+    wrapper.__wrapped__ = f
+    wrapper.__name__ = f.__name__
+    return wrapper
 
 
 def s5_barriers():
@@ -55,16 +148,27 @@ def s5_barriers():
             if inspect.isclass(cls) and cls.__module__.startswith("unified_planning"):
                 try:
                     cls.__ch_deep_realize__ = ident
+                    for meth in ("__repr__", "__str__"):
+                        f = vars(cls).get(meth)
+                        if f is not None and callable(f) and not getattr(f, "_vf_wrapped", False):
+                            setattr(cls, meth, _safe_text(f, cls.__name__))
                 except (TypeError, AttributeError):
                     pass
     from unified_planning.model.fnode import FNode
 
-    orig = FNode.__repr__
+    orig = vars(FNode)["__repr__"]
+    orig = getattr(orig, "__wrapped__", orig)
+    from crosshair.tracers import NoTracing, is_tracing
 
     def __repr__(self):
+        # the text of an expression without symbolic constants is computed natively (no tracer);
+        # an expression that holds a symbolic constant prints as a placeholder unique to the node
         try:
+            if is_tracing():
+                with NoTracing():
+                    return orig(self)
             return orig(self)
-        except CrossHairInternal:
+        except (CrossHairInternal, SystemError):
             return f"<expr#{self._node_id}>"
 
     FNode.__repr__ = __repr__
